@@ -8,12 +8,15 @@ pub enum V {
     L(Vec<V>),
     T(Vec<V>),
     C(&'static str, Vec<V>),
+    /// a value already printed in Gallina syntax (the output of a child harness process)
+    Raw(String),
 }
 
 impl fmt::Display for V {
     fn fmt(&self, f: &mut fmt::Formatter<'_>) -> fmt::Result {
         match self {
             V::N(n) => write!(f, "{n}"),
+            V::Raw(s) => write!(f, "{s}"),
             V::L(l) => {
                 write!(f, "[")?;
                 for (i, x) in l.iter().enumerate() {
